@@ -70,10 +70,15 @@ def find_lift(ctx, parent):
         return None, "position() is not over `<vec>.iter()` (saw %s)" % names
     vec = base
     # the predicate closure
-    pcl = mu.single_def(defs, mu.op_local(pos_t["args"][1]))
-    pred = prog.bodies.get(pcl[2]["def"]) if pcl is not None and pcl[1] != "term" and pcl[2].get("ak") == "closure" else None
+    pa = pos_t["args"][1]
+    pred = None
+    if pa.get("o") == "const" and pa["k"].get("c") == "fn" and isinstance(pa["k"].get("callee"), dict):
+        pred = prog.bodies.get(pa["k"]["callee"].get("id"))          # a (nested) fn item passed by name
+    else:
+        pcl = mu.single_def(defs, mu.op_local(pa))
+        pred = prog.bodies.get(pcl[2]["def"]) if pcl is not None and pcl[1] != "term" and pcl[2].get("ak") == "closure" else None
     if pred is None:
-        return None, "position() predicate is not a closure"
+        return None, "position() predicate is neither a closure nor a function of the crate"
     info = {"vec": vec, "pos": pos_t, "pos_bi": pos_bi, "pred": pred, "remove": rt, "remove_body": rb, "remove_bi": rbi}
     if rb.kind == "Closure":
         cdefs = mu.defs_of(rb)
